@@ -17,6 +17,7 @@ def run(F, rep):
     rep.engines.update(["E2-DT", "E1"])
     rep.run(dt_graph.combine_table, F, rep, "C04.1")
     rep.run(dt_tables.hash_step_table, F, rep, "C04.2")
+    rep.run(dt_compress.kmer_chain_table, F, rep, "C04.2")
     rep.run(dt_graph.no_pruning_in_filter, F, rep, "C04.2")
     rep.run(dt_compress.graph_driver_table, F, rep, "C04.3")
     rep.run(dt_tables.graph_step_table, F, rep, "C04.3")
